@@ -354,6 +354,19 @@ struct PrologEpilogInfo {
   }
 };
 
+// Emits 'add|sub sp, sp, value' (nothing if zero, two instructions if the value needs more than 12 bits).
+static Error emit_sp_adjustment(Emitter* emitter, InstId inst_id, uint32_t value) noexcept {
+  if (value <= 0xFFFu) {
+    return value ? emitter->emit(inst_id, sp, sp, value) : Error::kOk;
+  }
+  if (value > 0xFFFFFFu) {
+    return make_error(Error::kInvalidState);
+  }
+  // TODO: [ARM] Prolog - we must touch the pages otherwise it's undefined.
+  ASMJIT_PROPAGATE(emitter->emit(inst_id, sp, sp, value & 0x000FFFu));
+  return emitter->emit(inst_id, sp, sp, value & 0xFFF000u);
+}
+
 ASMJIT_FAVOR_SIZE Error EmitHelper::emit_prolog(const FuncFrame& frame) {
   Emitter* emitter = _emitter->as<Emitter>();
 
@@ -413,22 +426,31 @@ ASMJIT_FAVOR_SIZE Error EmitHelper::emit_prolog(const FuncFrame& frame) {
     }
   }
 
-  if (frame.has_stack_adjustment()) {
-    uint32_t adj = frame.stack_adjustment();
-    if (adj <= 0xFFFu) {
-      ASMJIT_PROPAGATE(emitter->sub(sp, sp, adj));
-    }
-    else if (adj <= 0xFFFFFFu)  {
-      // TODO: [ARM] Prolog - we must touch the pages otherwise it's undefined.
-      ASMJIT_PROPAGATE(emitter->sub(sp, sp, adj & 0x000FFFu));
-      ASMJIT_PROPAGATE(emitter->sub(sp, sp, adj & 0xFFF000u));
-    }
-    else {
-      return make_error(Error::kInvalidState);
-    }
+  // Emit: 'mov sa_reg, sp' - the stack arguments are above all saved registers (x29 already holds sp if FP is preserved).
+  uint32_t sa_reg_id = frame.sa_reg_id();
+  bool has_sa_reg = sa_reg_id != Reg::kIdBad && sa_reg_id != Gp::kIdSp;
+  Gp sa_reg = Gp::make_r64(has_sa_reg ? sa_reg_id : uint32_t(Gp::kIdFp));
+
+  if (has_sa_reg && !(frame.has_preserved_fp() && sa_reg_id == Gp::kIdFp)) {
+    ASMJIT_PROPAGATE(emitter->mov(sa_reg, sp));
   }
 
-  return Error::kOk;
+  uint32_t adj = frame.stack_adjustment();
+  if (frame.has_dynamic_alignment()) {
+    // Emit: 'and sp, sa_reg, ~(alignment - 1)' and, without a frame pointer, 'str sa_reg, [sp, da_offset]'. The DA
+    // slot may be too far for a single store, so sp is lowered in two steps around it (sp stays 16-byte aligned).
+    if (!has_sa_reg) {
+      return make_error(Error::kInvalidState);
+    }
+    ASMJIT_PROPAGATE(emitter->and_(sp, sa_reg, ~uint64_t(frame.final_stack_alignment() - 1u)));
+    if (frame.has_da_offset()) {
+      uint32_t da_base = frame.da_offset() & ~15u;
+      ASMJIT_PROPAGATE(emit_sp_adjustment(emitter, Inst::kIdSub, adj - da_base));
+      ASMJIT_PROPAGATE(emitter->str(sa_reg, ptr(sp, int32_t(frame.da_offset() & 15u))));
+      adj = da_base;
+    }
+  }
+  return emit_sp_adjustment(emitter, Inst::kIdSub, adj);
 }
 
 // TODO: [ARM] Emit epilog.
@@ -446,18 +468,18 @@ ASMJIT_FAVOR_SIZE Error EmitHelper::emit_epilog(const FuncFrame& frame) {
 
   uint32_t adjust_initial_offset = pei.size_total;
 
-  if (frame.has_stack_adjustment()) {
-    uint32_t adj = frame.stack_adjustment();
-    if (adj <= 0xFFFu) {
-      ASMJIT_PROPAGATE(emitter->add(sp, sp, adj));
-    }
-    else if (adj <= 0xFFFFFFu)  {
-      ASMJIT_PROPAGATE(emitter->add(sp, sp, adj & 0x000FFFu));
-      ASMJIT_PROPAGATE(emitter->add(sp, sp, adj & 0xFFF000u));
-    }
-    else {
-      return make_error(Error::kInvalidState);
-    }
+  // Restore sp to where the saved registers are: from the frame pointer or the DA slot if sp was aligned dynamically.
+  if (frame.has_dynamic_alignment() && frame.has_preserved_fp()) {
+    ASMJIT_PROPAGATE(emitter->mov(sp, x29));
+  }
+  else if (frame.has_dynamic_alignment() && frame.has_da_offset()) {
+    Gp sa_reg = Gp::make_r64(frame.sa_reg_id());
+    ASMJIT_PROPAGATE(emit_sp_adjustment(emitter, Inst::kIdAdd, frame.da_offset() & ~15u));
+    ASMJIT_PROPAGATE(emitter->ldr(sa_reg, ptr(sp, int32_t(frame.da_offset() & 15u))));
+    ASMJIT_PROPAGATE(emitter->mov(sp, sa_reg));
+  }
+  else {
+    ASMJIT_PROPAGATE(emit_sp_adjustment(emitter, Inst::kIdAdd, frame.stack_adjustment()));
   }
 
   for (int g = 1; g >= 0; g--) {
